@@ -474,4 +474,178 @@ def t_operator_helpers(box, a):
 t_operator_helpers.records = {"box": ("x", "y")}
 
 
+LIMITS = (0, 3, 7)
+_SCALE = {"lo": 1, "hi": 10}
+
+
+def t_module_constants_and_range(a, b):
+    out = []
+    for i in range(len(LIMITS)):
+        if a > LIMITS[i]:
+            out.append(i * _SCALE["hi"])
+        else:
+            out.append(_SCALE["lo"])
+    for i, lim in enumerate(reversed(LIMITS), start=1):
+        if b == lim:
+            out.append(-i)
+    return out
+
+
+def t_nonlocal_counter(a, b):
+    count = 0
+
+    def note(v):
+        nonlocal count
+        if v > 0:
+            count += 1
+        return count
+
+    first = note(a)
+    second = note(b)
+    return (first, second, count)
+
+
+def t_try_finally_return(a):
+    log = []
+    def inner():
+        try:
+            if a > 2:
+                return 1
+            log.append("body")
+            return 2
+        finally:
+            log.append("finally")
+    r = inner()
+    return (r, log)
+
+
+def t_while_break(a):
+    i = 0
+    steps = []
+    while True:
+        if i >= 3:
+            break
+        if a == i:
+            steps.append(100)
+            i += 2
+            continue
+        steps.append(i)
+        i += 1
+    return steps
+
+
+def t_assert_and_del(a, b):
+    d = {"a": a, "b": b, "c": 0}
+    del d["c"]
+    assert "c" not in d
+    if a > b:
+        del d["a"]
+    return d
+
+
+def t_strings_concrete(a):
+    parts = ["x", "y", "z"]
+    name = "_".join(parts[:2]) + ("+" if a > 0 else "-")
+    return (name, name.split("_"), name.upper(), len(name), name.startswith("x"))
+
+
+def t_sorted_with_key_lambda(a, b):
+    rows = {"b2": a, "a10": b, "a9": a + b}
+    order = sorted(rows, key=lambda k: (len(k), k))
+    rev = sorted(rows.items(), key=lambda kv: kv[0], reverse=True)
+    return (order, [k for k, _ in rev], [rows[k] for k in order])
+
+
+def t_zip_star_and_reversed(a, b, c):
+    pairs = [(a, 1), (b, 2), (c, 3)]
+    vals, idx = zip(*pairs)
+    out = []
+    for v, i in zip(reversed(vals), idx):
+        if v > i:
+            out.append((v, i))
+    return (list(vals), out)
+
+
+def t_attribute_aug_assign(box, a):
+    box.x += a
+    box.y *= 2
+    if box.x > box.y:
+        box.x, box.y = box.y, box.x
+    box.log += [a]
+    return (box.x, box.y, box.log)
+
+
+t_attribute_aug_assign.records = {"box": ("x", "y")}
+
+
+def t_any_all_generators_fork(a, b, c):
+    xs = (a, b, c)
+    first_pos = next((x for x in xs if x > 0), None)
+    n_big = sum(1 for x in xs if x > 5)
+    return (first_pos, n_big, any(x == 0 for x in xs), all(x != 1 for x in xs))
+
+
+def t_nested_data_update(a, b):
+    cfg = {"outer": {"inner": [a]}, "flat": b}
+    cfg["outer"]["inner"].append(sign(b))
+    copy = {k: v for k, v in cfg.items()}
+    copy["flat"] = 0
+    if a > 0:
+        cfg["outer"]["extra"] = copy["outer"]["inner"][0]
+    return (cfg, copy["flat"])
+
+
+def t_early_continue_accumulate(a, b, c):
+    acc = {"sum": 0, "skipped": []}
+    for name, v in (("a", a), ("b", b), ("c", c)):
+        if v < 0:
+            acc["skipped"].append(name)
+            continue
+        if v > 8:
+            break
+        acc["sum"] += v
+    else:
+        acc["done"] = True
+    return acc
+
+
+def t_closure_sees_later_rebinding(a, b):
+    scale = 1
+    g = lambda x: x * scale  # noqa: E731
+    if a > 0:
+        scale = 2
+    first = g(3)
+    if b > 0:
+        scale = scale + 5
+    return (first, g(1))
+
+
+def t_iterators(a, b):
+    it = iter([a, b, 7])
+    first = next(it)
+    rest = [x for x in it if x > first]
+    empty = next(iter([]), -1)
+    return (first, rest, empty)
+
+
+def t_dict_with_coinciding_keys(a, b, c):
+    import math
+
+    d = {k: v for k, v in ((a, 1), (b, 2), (c, 3))}
+    lit = {a: "x", b: "y", 0: "z"}
+    uniq = {v for v in (a, b, c)}
+    prod = math.prod(v for v in d.values())
+    return (list(d.items()), list(lit.items()), len(uniq), prod)
+
+
+def t_dict_store_coinciding_keys(a, b):
+    d = {}
+    d[a] = "first"
+    d[b] = "second"
+    d[1] = "one"
+    if a in d and b in d:
+        d[a] = d[b] + "!"
+    return (list(d.items()), d.get(0, "none"), len(d))
+
+
 CASES = [v for k, v in list(globals().items()) if k.startswith("t_") and callable(v)]
